@@ -15,6 +15,7 @@ Vocabulary (defined next to the model):
 import Banyan.Model.C16
 import Banyan.Lemmas.OrderC16
 import Banyan.Lemmas.SelectorC16
+import Banyan.Lemmas.SpecLocatorC16
 
 namespace Banyan.C16
 
@@ -64,6 +65,29 @@ theorem applyLocators_in_range (hash : List Byte → Nat) (subject : List Byte) 
     | some k => exact aux _ h
 
 example : applyLocators xxhash64 [109, 49] [.str [97, 98], .int 5] (some 1) 5 = some 0 := by decide
+
+/-! ### writes that carry their own tag layout -/
+
+/-- A write that carries its own tag layout and the spec-less write of the same series (tags the spec does not carry
+    are null) are routed identically: same entity values, same shard – for stream and measure, with or without a
+    sharding key, for every hash function and shard count. -/
+theorem specLocator_eq_schemaLocator (hash : List Byte → Nat) (schema spec : List FamSpec) (entity : List Name)
+    (shardingKey : Option (List Name)) (v : Name → Name → C12.TagValue) (subject : List Byte) (shardNum : Nat)
+    (hent : ∀ t ∈ entity, (findTagByName schema t).isSome = true)
+    (hsk : ∀ sk, shardingKey = some sk → ∀ t ∈ sk, (findTagByName schema t).isSome = true)
+    (hnd : (spec.map (·.name)).Nodup) :
+    specNavigate hash schema spec entity shardingKey subject (specWrite spec v) shardNum =
+      schemaNavigate hash schema entity shardingKey subject (refWrite schema spec v) shardNum := by
+  simp only [specNavigate, schemaNavigate, specFind_carried schema spec entity v hent hnd,
+    schemaFind_carried schema spec entity v hent]
+  cases shardingKey with
+  | none => rfl
+  | some sk =>
+    simp only [specFind_carried schema spec sk v (hsk sk rfl) hnd, schemaFind_carried schema spec sk v (hsk sk rfl)]
+
+example : specNavigate xxhash64 [⟨[102], [[115], [105], [116]]⟩] [⟨[102], [[116], [115]]⟩] [[115], [105]] none [108] 
+    (specWrite [⟨[102], [[116], [115]]⟩] fun _ t => .str t) 16 =
+    schemaNavigate xxhash64 [⟨[102], [[115], [105], [116]]⟩] [[115], [105]] none [108] [[.str [115], .null, .str [116]]] 16 := by decide
 
 /-! ## 2. the selector state is the canonical function of the final topology -/
 
